@@ -13,7 +13,8 @@ RULE = ("all 18 conversions x sampled grids/values, uncertainty argument absent 
 
 
 def generate(rng, tier):
-    return L.gen_conv_cases(rng, tier, 0, 1) + L.gen_conv_cases(rng, tier, 1, 1) + L.gen_conv_cases(rng, tier, 1, 1)
+    return (L.gen_conv_cases(rng, tier, 0, 1, nonfinite_dy=True) + L.gen_conv_cases(rng, tier, 1, 1, nonfinite_dy=True)
+            + L.gen_conv_cases(rng, tier, 1, 1))
 
 
 run_impl = L.run_conv
@@ -47,6 +48,14 @@ def oracle(pystog, case, res):
     if m["bcoh"] <= 0 or m["rho"] <= 0:
         return None
     pos = (x >= 1e-3) & (x <= 1e3)
+    inf_in = pos & np.isinf(dy)
+    if inf_in.any() and not np.isinf(e[inf_in]).all():      # an infinite uncertainty ("unknown") stays infinite: slope times infinity
+        j = int(np.flatnonzero(inf_in & ~np.isinf(e))[0])
+        return "%s: an infinite input uncertainty at x=%r comes back as %r" % (nm, float(x[j]), float(e[j]))
+    nan_in = pos & np.isnan(dy)
+    if nan_in.any() and not np.isnan(e[nan_in]).all():
+        return "%s: a NaN input uncertainty comes back as a number" % nm
+    pos = pos & np.isfinite(dy)
     if pos.any():
         want = L.deriv(sp, a, b, x[pos], m) * dy[pos]
         bad = np.abs(e[pos] - want) > 1e-9 * (np.abs(want) + 1e-300)
